@@ -50,7 +50,7 @@ PROPS = {
                   STATUS: ["tbl_succeeded_doors_task", "C03_fresh_start_statuses"],
                   JUSTIFIED: ["C01_offers_have_completed_predecessors", "C01_predecessors_completed_and_decided"],
                   TRUTH: ["C01_offers_have_true_transitions", "C01_predecessors_decided_true", "C01_task_map_sound"],
-                  EDGES: ["C01_offers_justified_by_the_definition", "C01_decisions_follow_graph_edges", "C01_start_tasks_name_no_predecessor"]},
+                  EDGES: ["C01_offers_justified_by_the_definition", "C01_decisions_follow_graph_edges", "C01_start_tasks_name_no_predecessor", "C01_split_gets_fresh_route"]},
         keys=["status", "sequence", "staged", "tasks"], offers="ids",
         prof=dict(p_items=0.0, p_retry=0.0, p_badexpr=0.0, p_join=0.9, p_join_count=0.1, p_loop=0.05, p_parallel_edge=0.05, p_cond_ctx=0.3, p_template=0.3, templates=[7, 7, 0, 5, 6, 18]), hist=dict(p_fail=0.3, fixed_outcomes=True, p_lazy_start=0.25, p_pause=0.25, p_early_resume=0.6),
         monitor="C01", unproven=["global multiset equality with the prescribed executions (exactly-once per justification, C01_global): search only; proved along every history: every predecessor an offer names is a completed record of a task s that recorded true for an edge s -> offered task of the graph composed from the definition"],
